@@ -158,8 +158,11 @@ class Ctx:
         self.idsim = IdSim()
         for name, m in list(sys.modules.items()):
             if m is not None and (name == "CircuitCalculator" or name.startswith("CircuitCalculator.")):
-                if "id" not in vars(m) or isinstance(vars(m)["id"], IdSim):
-                    m.id = self.idsim           # never over a name the library defines itself
+                try:
+                    if "id" not in vars(m) or isinstance(vars(m)["id"], IdSim):
+                        m.id = self.idsim           # never over a name the library defines itself
+                except Exception:
+                    pass                            # a lazy proxy or a module without __dict__: nothing to install
 
     # ---- O2
     def watch(self, name, obj):
@@ -413,7 +416,11 @@ def exec_step(ctx, step, host=None):
         if fired.get("fired"):
             ctx.events.append(("iofault", step["id"], fired["kind"]))
     if path_w is not None:
-        if status == "ok":
+        if status == "ok" and (step["id"], ctx.disk.key(path_w)) not in ctx.disk.wopened and ctx.disk.key(path_w) in ctx.disk.files:
+            # the dump returned without writing (e.g. "content unchanged, skip"): it vouches for the present content
+            ctx.disk.state[ctx.disk.key(path_w)] = ("ack", step["id"])
+            rec["acked"] = True
+        elif status == "ok":
             rec["acked"] = ctx.disk.ack(path_w, step["id"])
         elif status != "skip":
             ctx.disk.nack(path_w, step["id"], status)
